@@ -68,6 +68,7 @@ pub async fn run_acb_app_to_delta_models(
     let mut all_txs = Vec::<Tx>::new();
     let mut global_read_index: u32 = 0;
     for mut csv_reader in csv_file_readers {
+        let csv_desc = csv_reader.desc().to_string();
         let mut csv_txs = parse_tx_csv(
             &mut csv_reader,
             global_read_index,
@@ -75,11 +76,17 @@ pub async fn run_acb_app_to_delta_models(
             &mut err_printer,
         )?;
 
-        load_tx_rates(&mut csv_txs, &mut rate_loader).await?;
+        load_tx_rates(&mut csv_txs, &mut rate_loader)
+            .await
+            .map_err(|e| format!("Error in {csv_desc}: {e}"))?;
 
         let mut txs = Vec::<Tx>::with_capacity(csv_txs.len());
-        for csv_tx in csv_txs {
-            txs.push(Tx::try_from(csv_tx)?)
+        for (i, csv_tx) in csv_txs.into_iter().enumerate() {
+            // Start at 1 for the user, and include header.
+            let row_num = i + 2;
+            txs.push(Tx::try_from(csv_tx).map_err(|e| {
+                format!("Error on row {row_num} of {csv_desc}: {e}")
+            })?)
         }
 
         global_read_index += txs.len() as u32;
